@@ -1761,6 +1761,74 @@ pub fn case_ff(bytes: &[u8], ctx: &mut Ctx) -> CaseResult {
 
 // --------------------------------------------------------------------------
 
+/// a very long history on ONE cache: tens of thousands of small trees, each with
+/// a sub-tree referenced twice (so it is memoized), then a second pass over
+/// early trees and new trees that reuse early sub-trees. A block has thousands
+/// of puzzles and one TreeCache for all of them; whatever the cache does when
+/// it grows large must not change any hash.
+pub fn case_big_cache(bytes: &[u8], ctx: &mut Ctx) -> CaseResult {
+    let mut s = Src::new(bytes);
+    let n = match ctx.tier {
+        Tier::Quick => 66_000 + s.below(6_000),
+        Tier::Thorough => 66_000 + s.below(140_000),
+    };
+    let salt = s.u16();
+    let second_pass = 64 + s.below(400);
+    let mut a = Allocator::new();
+    let mut cache = TreeCache::default();
+    let mut roots: Vec<(NodePtr, NodePtr, H, H)> = Vec::with_capacity(n);
+    let filler = a.new_atom(&[0x42; 5]).expect("atom");
+    let filler_h = mth::hash_atom(&[0x42; 5]);
+    for i in 0..n {
+        let mut id = [0u8; 6];
+        id[0..2].copy_from_slice(&salt.to_be_bytes());
+        id[2..6].copy_from_slice(&(i as u32).to_be_bytes());
+        let leaf = a.new_atom(&id).expect("atom");
+        let sub = a.new_pair(leaf, filler).expect("pair");
+        // the sub-tree occurs twice: it is memoized by the cache
+        let root = a.new_pair(sub, sub).expect("pair");
+        let sub_h = mth::hash_pair(&mth::hash_atom(&id), &filler_h);
+        let root_h = mth::hash_pair(&sub_h, &sub_h);
+        let got = tree_hash_cached(&a, root, &mut cache);
+        vensure!(
+            got.to_bytes() == root_h,
+            "C17:big-cache:first-pass-hash-differs-from-definition",
+            "tree {i} of {n} hashed through one shared cache: wrong hash"
+        );
+        roots.push((root, sub, root_h, sub_h));
+    }
+    // second pass: early, middle and late trees again, and new trees reusing their sub-trees
+    for k in 0..second_pass {
+        let idx = match k % 3 {
+            0 => k / 3,
+            1 => s.below(n),
+            _ => n - 1 - (k / 3),
+        }
+        .min(n - 1);
+        let (root, sub, root_h, sub_h) = roots[idx];
+        let got = tree_hash_cached(&a, root, &mut cache);
+        vensure!(
+            got.to_bytes() == root_h,
+            "C17:big-cache:rehash-through-grown-cache-differs-from-definition",
+            "tree {idx} of {n} re-hashed after {n} trees went through the same cache: wrong hash"
+        );
+        let fresh = a.new_pair(sub, filler).expect("pair");
+        let want = mth::hash_pair(&sub_h, &filler_h);
+        let got2 = tree_hash_cached(&a, fresh, &mut cache);
+        vensure!(
+            got2.to_bytes() == want,
+            "C17:big-cache:new-tree-reusing-old-subtree-differs-from-definition",
+            "a new tree reusing the memoized sub-tree of tree {idx} (of {n}): wrong hash"
+        );
+    }
+    ctx.add_inner((n + 2 * second_pass) as u64);
+    ctx.label("big-cache:>65536-memoized-pairs");
+    ctx.nontrivial(((n as u64) << 16) | u64::from(salt));
+    ctx.render(|| format!("{n} trees ((id . filler) . (id . filler)) through one TreeCache, then {second_pass} re-hashes of early/random/late trees and new trees reusing their sub-trees"));
+    ctx.ran_dry(s.ran_dry());
+    Ok(())
+}
+
 pub fn run_main() {
     let prop = Property {
         id: "C17",
@@ -1849,6 +1917,15 @@ pub fn run_main() {
                 inflight: false,
                 min_nontrivial: 20_000,
                 required_labels: &["ff:accepted(curry_and_treehash agrees)"],
+            },
+            SubCheck {
+                name: "big-cache-history",
+                about: "one TreeCache across more than 65 536 memoized sub-trees, then re-hashing early trees and new trees that reuse early sub-trees",
+                source: Source::Random { len: 16, quick: 48, thorough: 640 },
+                run: case_big_cache,
+                inflight: false,
+                min_nontrivial: 40,
+                required_labels: &["big-cache:>65536-memoized-pairs"],
             },
         ],
     };
